@@ -3,7 +3,7 @@
 Tie (T) of property C06 (DESIGN.md 2.3).  The working-tree source is parsed with Python's `ast`; the
 body of every function of the table FUNCS is compiled, statement by statement, into the draw-stream
 monad `M` of coq/Model/C06_Select.v with the statement vocabulary of coq/Model/C06_GenRt.v
-(for_each / for_break / while_fuel, index, qdivM, uniform, py_maxM, unpack2, pop0 ...) and written to
+(for_each / for_break / while_fuel, index, qdivM, uniformM, py_maxM, unpack2, pop0 ...) and written to
 coq/Gen/C06_gen.v (never committed).  coq/Proofs/C06_gen_equiv.v then proves, for all arguments and
 all draw lists, `gen_f args ds = <hand model> args ds`, and coq/Props/C06_gen.v restates the C06
 theorems on the regenerated definitions.  A semantic change of the source therefore breaks a proof
@@ -123,7 +123,7 @@ BUILTINS = ("sorted", "max", "min", "sum", "len", "range", "list", "float", "abs
 # identifiers the generated text uses: a Python local of that name would capture them
 RESERVED = set("""fun forall exists match with end if then else let in as return fix cofix struct Type Prop Set where at
 ret raise bind w M ind draw res Ok Raise Mismatch exn IndexError ZeroDivisionError ValueError AssertionError OtherError
-choice random01 shuffle sample uniform mapM repeatM for_each for_break while_fuel Next Break ctl range_step index value_at
+choice random01 shuffle sample uniformM uniform mapM repeatM for_each for_break while_fuel Next Break ctl range_step index value_at
 qdivM py_maxM qmaxM qminM unpack2 pop0 Qnat values wv size cd uid dominates cd_lt f_lt f_gt f_le py_sorted py_sorted_rev
 py_max firstn seq map filter combine length app nil cons fst snd negb andb orb true false tt unit nat Q bool list option
 Some None Qplus Qminus Qmult Qdiv Qabs Qltb Qle_bool Qeq_bool qsum qmax qmin median Nat S O nth nth_error""".split())
@@ -600,7 +600,7 @@ class FnTr(object):
                 binds.append((x, "choice %s" % args[0][0]))
                 return x, elem(args[0][1])
             if f.attr == "uniform" and len(args) == 2:
-                binds.append((x, "uniform %s %s" % tuple(self.coerce(e, v, t, "Q") for v, t in args)))
+                binds.append((x, "uniformM %s %s" % tuple(self.coerce(e, v, t, "Q") for v, t in args)))
                 return x, "Q"
             if f.attr == "sample" and len(args) == 2 and is_list(args[0][1]) and args[0][1] != "list ?" \
                     and args[1][1] in ("int", "nat"):
